@@ -1,5 +1,6 @@
 """C13 — the report is a deterministic function of the set of findings (DESIGN 5/C13)."""
 from runner import Ob
+import re
 import sites as S
 import terms as T
 import order as O
@@ -196,6 +197,10 @@ def run(ctx, crate):
                             src = need + " (sort key not total)"
                         elif need.startswith("discovery"):
                             gen_sorted_inner[b.path] = True
+            elif re.match(r"^<[A-Z]\w* as std::iter::IntoIterator>::IntoIter$", lp.self_ty or "") or re.match(r"^[A-Z]\w*$", lp.self_ty or ""):
+                # the iterator of a type parameter (`fn f<I: IntoIterator<Item = T>>(items: I)`): what order it has is the caller's business, so the
+                # worst is assumed here - whatever this loop feeds must not depend on the order
+                src = "caller-ordered"
             else:
                 obs.append(Ob("R13.loop", b.path, "iterator of unknown order class %s" % lp.self_ty.split("<")[0], False, site=lp.site.where,
                               expected="a classified iterator type", found=lp.self_ty))
